@@ -85,11 +85,21 @@ SQL_SCRIPT = [
 ]
 
 
-def _sql_script(connect, path):
+SQL_SCRIPT2 = [
+    # integer expressions on the right-hand side of UPDATE ... SET (counter updates)
+    ("CREATE TABLE IF NOT EXISTS u(k INTEGER PRIMARY KEY AUTOINCREMENT, n INTEGER DEFAULT 0, m INTEGER DEFAULT 0, UNIQUE (k))", ()),
+    ("INSERT INTO u(n, m) VALUES(?, ?)", (5, 1)), ("INSERT INTO u(n, m) VALUES(?, ?)", (2, 9)),
+    ("UPDATE u SET n=MAX(n, ?) WHERE k = ?", (3, 1)), ("UPDATE u SET n=MAX(n, ?) WHERE k = ?", (7, 1)),
+    ("UPDATE u SET n=MIN(n, ?), m=m + ? WHERE k = ?", (1, 4, 2)), ("UPDATE u SET n=m, m=n WHERE k = ?", (2,)),
+    ("UPDATE u SET n=n - ? + ?", (1, 10)), ("UPDATE u SET m=MAX(m, n)", ()), ("COMMIT?", ()),
+]
+
+
+def _sql_script(connect, path, script=None, select="SELECT a, b, c FROM t ORDER BY a"):
     log = []
     conn = connect(path)
     cur = conn.cursor()
-    for sql, params in SQL_SCRIPT:
+    for sql, params in (script or SQL_SCRIPT):
         if sql == "REOPEN":
             cur.close()
             conn.close()
@@ -102,7 +112,7 @@ def _sql_script(connect, path):
                 cur.execute(sql, params)
             except Exception as e:
                 log.append(("err", type(e).__name__.split(".")[-1]))
-        cur.execute("SELECT a, b, c FROM t ORDER BY a")
+        cur.execute(select)
         log.append((sql, [tuple(r) for r in cur], conn.in_transaction))
     conn.close()
     return log
@@ -119,6 +129,8 @@ def run():
         fake = _script(jmod.Journaler, "fake.db")
         real += _sql_script(real_sqlite3.connect, os.path.join(d, "sql.db"))
         fake += _sql_script(fakesql.FakeSqlite3().connect, "sql.db")
+        real += _sql_script(real_sqlite3.connect, os.path.join(d, "sql2.db"), SQL_SCRIPT2, "SELECT k, n, m FROM u ORDER BY k")
+        fake += _sql_script(fakesql.FakeSqlite3().connect, "sql2.db", SQL_SCRIPT2, "SELECT k, n, m FROM u ORDER BY k")
     finally:
         jmod.sqlite3 = saved
         shutil.rmtree(d, ignore_errors=True)
